@@ -400,7 +400,7 @@ pub fn walk(sh: &Shadow, roots: &[(&str, &[Object])]) -> Walk {
 pub fn content_of(o: Object) -> Content {
     match o.tag() {
         Type::Float => Content::F(o.as_f64().to_bits()),
-        Type::String => Content::S(o.as_str().to_string()),
+        Type::String => Content::S(String::from_utf8_lossy(o.as_str().as_bytes()).to_string()),
         Type::Array => Content::A(o.as_vec().iter().map(|e| obj_key(*e)).collect()),
         _ => Content::F(0),
     }
@@ -935,7 +935,7 @@ fn h_print(text: &str) -> bool {
     let _ = CTX.try_with(|c| {
         if let Ok(mut ctx) = c.try_borrow_mut() {
             if ctx.active {
-                ctx.out.push_str(text);
+                ctx.out.push_str(&String::from_utf8_lossy(text.as_bytes()));
             }
         }
     });
